@@ -320,6 +320,12 @@ func (p *Program) c17StaleOnlyFails(f *ssa.Function, st c17Stale, obj ssa.Value)
 				if rc.Ret != ret {
 					continue
 				}
+				// a return whose own guard facts are contradictory never executes: the fall-through
+				// behind `if true { return … }` that the normaliser's tail duplication leaves for the
+				// helper return that always takes the branch
+				if pfDeadByFacts(rc.Facts) {
+					continue
+				}
 				if v, isConst := c17ConstBoolResult(rc.Results[0]); !isConst || v {
 					return noTri, fmt.Sprintf("with a declared observedGeneration different from metadata.generation the return at %s (result %s) is still reachable", p.IPos(ret), p.describe(rc.Results[0]))
 				}
